@@ -95,23 +95,36 @@ def target_code(t, W, put, put2, fixed_cap):
         assert!(mem[guard_i] == G);
     }""" % (fixed_cap, wrap, put("w"), put2("w"))
     if t == "chain":
+        unrolled = "\n".join("    if %d < wrote { outbuf[%d] = if %d < in_a { mem[lo + %d] } else { mem2[lo + %d - in_a] }; }" % (k, k, k, k, k) for k in range(W + 1))
         return """    let mut mem = [G; N];
+    let mut mem2 = [G; N];
     let lo = 1usize;
     let cap0 = %s;
     let split = any_len(cap0);
     {
-        let (first, second) = mem[lo..lo + cap0].split_at_mut(split);
+        // the two halves are windows of SEPARATE arrays with guard bytes on both sides: a write that runs over the end of the
+        // first half (or starts before the second) hits a guard instead of landing in the neighbouring half
+        let first: &mut [u8] = &mut mem[lo..lo + split];
+        let second: &mut [u8] = &mut mem2[lo..lo + (cap0 - split)];
         let mut w = first.chain_mut(second);
         %s
         %s
         assert!(w.remaining_mut() == cap0 - need - 1);
     }
-    let out: &[u8] = &mem[lo..lo + need + 1];
+    let wrote = need + 1;
+    let in_a = if wrote < split { wrote } else { split };
+    let in_b = wrote - in_a;
+    let mut outbuf = [0u8; N];
+%s
+    let out: &[u8] = &outbuf[..wrote];
     kani::cover!(need < 2 || (split > 0 && split < need), "value straddles the two halves");
     let guard_i = any_below(N);
-    if guard_i < lo || guard_i >= lo + need + 1 {
+    if guard_i < lo || guard_i >= lo + in_a {
         assert!(mem[guard_i] == G);
-    }""" % (fixed_cap, put("w"), put2("w"))
+    }
+    if guard_i < lo || guard_i >= lo + in_b {
+        assert!(mem2[guard_i] == G);
+    }""" % (fixed_cap, put("w"), put2("w"), unrolled)
     if t == "limit":
         return """    let mut mem = [G; N];
     let lo = 1usize;
